@@ -95,17 +95,79 @@ class Agg:
         return d
 
 
+def run_case_fresh(prop: str, case: Dict[str, Any], timeout: float = 300.0) -> Dict[str, Any]:
+    """Run one case in a fresh interpreter (no history of earlier runs in the process).  Returns {"error": str|None, "violations": [...],
+    "choices":..., "digest":..., "stats":..., "sample":..., "callbacks":...}."""
+    import tempfile
+
+    d = os.path.join(VERIF, "scratch", "fresh")
+    os.makedirs(d, exist_ok=True)
+    fd, path = tempfile.mkstemp(prefix=f"{prop}-", suffix=".json", dir=d)
+    try:
+        with os.fdopen(fd, "w") as f:
+            f.write(canonical_json({"property": prop, "case": case}))
+        env = dict(os.environ)
+        env["PYTHONHASHSEED"] = "0"
+        p = subprocess.run([sys.executable, os.path.join(VERIF, "sim", "main.py"), "runcase", path], capture_output=True, text=True, env=env, timeout=timeout)
+        line = next((l for l in p.stdout.splitlines() if l.startswith("RUNCASE-RESULT ")), None)
+        if line is None:
+            return {"error": f"fresh run produced no result (rc={p.returncode}): {(p.stdout + p.stderr)[-400:]}", "violations": []}
+        return json.loads(line[len("RUNCASE-RESULT "):])
+    finally:
+        try:
+            os.unlink(path)
+        except OSError:
+            pass
+
+
+def runcase_file(path: str) -> int:
+    with open(path) as f:
+        doc = json.load(f)
+    mod = prop_module(doc["property"])
+    case = unjson_bytes(doc["case"])
+    out: Dict[str, Any] = {"error": None, "violations": []}
+    try:
+        r = mod.run_case(case)
+        out.update(violations=[v.to_json() for v in r.violations], choices=r.choices, digest=r.digest, stats=r.stats, sample=r.sample, callbacks=r.callbacks)
+    except HarnessError as e:
+        out["error"] = f"HarnessError: {e}"
+    print("RUNCASE-RESULT " + canonical_json(out))
+    return 0
+
+
 def _worker_job(prop: str, tier: str, base_seed: int, job: Dict[str, Any], wall_cap: float) -> Dict[str, Any]:
     faulthandler.dump_traceback_later(wall_cap, exit=True)
     try:
         mod = prop_module(prop)
         agg = Agg()
-        for case in mod.job_cases(job, tier, base_seed):
+        cases = iter(mod.job_cases(job, tier, base_seed))
+        while True:
+            try:
+                case = next(cases)
+            except StopIteration:
+                break
+            except HarnessError as e:       # (case generation may run a baseline)
+                agg.errors.append(f"HarnessError while generating the cases of job {job}: {e}")
+                break
             try:
                 r = mod.run_case(case)
             except HarnessError as e:
-                agg.errors.append(f"HarnessError in case seed={case.get('seed')}: {e}")
-                break
+                # The harness could not even set the scene (e.g. no connection on a healthy network).  If the same case behaves in a fresh
+                # interpreter, this worker's history is to blame: the code under test keeps process-global state that survived earlier
+                # runs.  The fresh run is the one that counts (a replay file is defined by what a fresh interpreter does).
+                fr = run_case_fresh(prop, case)
+                if fr.get("error"):
+                    agg.errors.append(f"HarnessError in case seed={case.get('seed')}: {e} (fresh interpreter: {fr['error']})")
+                    break
+                agg.runs += 1
+                agg.probes["rerun_in_a_fresh_interpreter_after_setup_failure"] = agg.probes.get("rerun_in_a_fresh_interpreter_after_setup_failure", 0) + 1
+                for vj in fr["violations"][:1]:
+                    if len(agg.violations) < 4:
+                        agg.violations.append({"case": case, "choices": fr.get("choices") or {}, "violation": vj, "digest": fr.get("digest") or ""})
+                if agg.probes["rerun_in_a_fresh_interpreter_after_setup_failure"] >= 8:
+                    agg.errors.append(f"this worker's set-up keeps failing while fresh interpreters run the same cases (process-global state in the code under test?): {e}")
+                    break
+                continue
             except Exception as e:  # harness code failed; never a verdict
                 agg.errors.append(f"{type(e).__name__} in case seed={case.get('seed')}: {e}\n" + traceback.format_exc()[-1500:])
                 break
@@ -383,7 +445,9 @@ def run_check(prop: str, tier: str) -> int:
                         cur.update(v)
                         if len(cur) != before:
                             growth[k] = (total.runs, len(cur))
-                if errors:
+                if len(errors) >= 20 or (errors and time.time() > deadline):
+                    # (a few broken runs do not end the search: a change that poisons process-global state breaks the set-up of some runs
+                    #  and shows as a verdict in others)
                     for f in pending:
                         f.cancel()
                     break
@@ -395,10 +459,15 @@ def run_check(prop: str, tier: str) -> int:
         errors.append(f"worker died: {e}")
 
     wall_search = time.time() - t_start
+    harness_failed = False
     if errors:
         for e in errors[:5]:
             print(f"HARNESS-ERROR property={prop} {e}", flush=True)
-        return 2
+        if not payloads:
+            return 2
+        # some runs broke the harness itself while others reached a verdict: the verdicts are still examined (each must reproduce from its
+        # replay file in a fresh interpreter); without a verified verdict the exit code stays 2
+        harness_failed = True
     if total.runs == 0:
         print(f"HARNESS-ERROR property={prop} no runs executed")
         return 2
@@ -460,7 +529,7 @@ def run_check(prop: str, tier: str) -> int:
         print(f"VIOLATION property={prop} replay={path}", flush=True)
         reported += 1
         exit_code = 1
-    if unverified and exit_code == 0:
+    if (unverified or harness_failed) and exit_code == 0:
         exit_code = 2
     for e in open_findings:
         n = known_seen.get(e["signature"], 0)
